@@ -1289,7 +1289,7 @@ def run(ctx):
     cases, expected = correspondence(ctx, real_sigs, n_real, n_synth) if real_sigs else ([], [])
 
     lap("correspondence")
-    ad = adapter_tie(ctx, usable, *((300, 300) if ctx.tier == "quick" else (3000, 3000)))
+    ad = adapter_tie(ctx, usable, *((300, 300) if ctx.tier == "quick" else (1500, 1500)))
     lap("adapter_tie")
     # ---- second half of the property: behavioural differential over call forms x boundary values, no theorem
     try:
